@@ -573,15 +573,16 @@ func closeEventsFor(fn *ssa.Function, ch ssa.Value) map[ssa.Instruction]bool {
 
 // checkJoin applies the join rule to one go statement in spawner F.
 // Requirements:
-//   J1 the goroutine body signals a join object after its last write
-//      (deferred close/Done in the body itself, or a direct signal after which
-//      no write is reachable);
-//   J2 every path in F from the go statement to a return of F waits on that object;
-//   J3 every input channel of the goroutine is closed on every path from the
-//      go statement to the wait (otherwise the wait cannot complete / the
-//      tail is not flushed);
-//   J4 the body does not delegate writes to a further, unjoined goroutine;
-//   J5 (WaitGroup) an Add(1) on the same object dominates the go statement.
+//
+//	J1 the goroutine body signals a join object after its last write
+//	   (deferred close/Done in the body itself, or a direct signal after which
+//	   no write is reachable);
+//	J2 every path in F from the go statement to a return of F waits on that object;
+//	J3 every input channel of the goroutine is closed on every path from the
+//	   go statement to the wait (otherwise the wait cannot complete / the
+//	   tail is not flushed);
+//	J4 the body does not delegate writes to a further, unjoined goroutine;
+//	J5 (WaitGroup) an Add(1) on the same object dominates the go statement.
 func (p *Prog) checkJoin(F *ssa.Function, g *ssa.Go) joinResult {
 	res := joinResult{Go: g}
 	body := callTarget(g)
